@@ -10,6 +10,18 @@ NOTE = ("Trusted: Coq 8.16.1 kernel (vm_compute, no native_compute); no axioms d
         "tools/gen_facts.py for tables; glibc and the file system are oracles (DESIGN.md section 8).")
 
 CLAIMS = {
+ "C01": dict(
+   text=("Theorems on the model of the layered reader (all trees, any number of layers and files): C01_main_highest_wins / "
+         "C01_main_absent_goes_on (the main file comes from the highest layer that has one; an empty file or a link to /dev/null "
+         "counts, lower layers are not opened), C01_dropins_consulted (drop-in directories in ascending layer order, names "
+         "strictly longer than and ending in the suffix, byte-sorted), C01_masked_ignored + C01_override_key_by_key (every "
+         "(section,key) has the value of the LAST consulted file not hidden by a later file of the same name — by C03_lookup "
+         "along the fold), C01_nofile, C01_no_names_refused, C01_default_layers, C01_result_is_spec (the code's loop equals the "
+         "specification's fold unless the first consulted file is itself hidden: known finding F14, refuted witness in "
+         "Properties_C12). Tie: random trees through readDirs/readConfig (ROOT_PREFIX, PARSING_DIRS, CONFIG_DIRS, drop-in-only "
+         "mode, process-wide list), dumps and the sequence of files opened. The file system is an oracle (finite tree instance)."),
+   technique="Coq proof over a model of the layered reader (induction over layers/files, composition with the merge theorems) + differential correspondence on generated trees",
+   ref="6 (C01), Appendix C"),
  "C02": dict(
    text=("Theorem C02_parse: for every delimiter set of each of the four classes and every comment set (dl_ok/cm_ok), and every "
          "well-formed list of lines of the conventional grammar (blank, comment with arbitrary text, section, key line with "
@@ -70,6 +82,15 @@ CLAIMS = {
          "checked against an exact rational model on sampled literals)."),
    technique="Coq proof over a model of strtol/strtoul base 0 + differential correspondence with independent Python oracle",
    ref="6 (C09)"),
+ "C12": dict(
+   text=("Theorems: C12_dirs_is_history_merge (econf_readDirs* = merge_files of exactly the list econf_readDirsHistory* returns, "
+         "same consulted files, same outcome), C12_dirs_is_config (= the layered read configured with the same two directories, "
+         "also for NULL/empty directory arguments), C12_accepting_callback (an always-accepting callback changes neither result "
+         "nor files opened), C12_history_merge / C12_merge_loop_is_fold (merging the history left to right skipping hidden files "
+         "reproduces the result when the first file is not itself hidden; C12_history_merge_refuted gives the F14 witness). "
+         "Tie: all entry points on the same generated tree, compared on the implementation's own outputs."),
+   technique="Coq proof (unfolding the wrappers to the one internal reader; simulation between callback variants) + differential correspondence",
+   ref="6 (C12)"),
  "C13": dict(
    text=("Theorems C13_line_stops / C13_error_at: after ANY conventional prefix (any length, any delimiter class), a malformed "
          "line of each kind (no closing bracket, text after bracket, empty section name, key+text without delimiter under a "
